@@ -159,8 +159,8 @@ def eff_obligations(config="K0"):
             text = "%s takes a const context: it must not write the context object or any global on any path" % f.name
             if d["effects"]:
                 e = d["effects"][0]
-                obs.append(Obligation("R-EFF", oid, e["where"].replace("/repo/", ""), f.name, text, False,
-                                      "store into %s %s at %s in %s; call chain %s" % (e["class"], e["object"], e["where"].replace("/repo/", ""), e["function"], e["chain"].strip(" >")),
+                obs.append(Obligation("R-EFF", oid, e["where"].replace(REPO + "/", ""), f.name, text, False,
+                                      "store into %s %s at %s in %s; call chain %s" % (e["class"], e["object"], e["where"].replace(REPO + "/", ""), e["function"], e["chain"].strip(" >")),
                                       props=PROPS))
             else:
                 obs.append(Obligation("R-EFF", oid, f.loc, f.name, text, True,
